@@ -14,6 +14,7 @@ import ClipVerif.Model.Vertex
 import ClipVerif.Model.Out
 import ClipVerif.Model.Tree
 import ClipVerif.Model.AreaOP
+import ClipVerif.Model.Contain
 /-
 Correspondence side of the line protocol: `model <name> …` evaluates a hand model, `gen <fn> …`
 evaluates a generated function; both print the result in a canonical form that the harness
@@ -73,6 +74,14 @@ def model (name : String) (ts : Toks) : String :=
     match takePath rest with
     | some (p, []) => toString (Model.pointInPolygon (p64 ⟨px, py⟩) (toP64 p).toArray)
     | _ => "parse-error"
+  | "contain", rest =>
+    match takePath rest with
+    | some (p1, rest) => match takePath rest with
+      | some (p2, []) =>
+        let r1 := toP64 p1; let r2 := toP64 p2
+        s!"{b (Model.path1InsidePath2 r1 r2)} {b (Model.path2ContainsPath1 r1 r2)} {showPath (Model.getCleanPath r1)}"
+      | _ => "parse-error"
+    | none => "parse-error"
   | "areaop", rest =>
     match takePath rest with
     | some (p, []) => toString ((Model.areaOP (toP64 p)).toBits.toNat)
